@@ -254,6 +254,13 @@ def maxp_applicable(sc, seeds, w):
     return all(i in seeds or out_w[i] > 0 for i in range(w.shape[0]))
 
 
+_COUNTS = {}
+
+
+def ctx_count(key, k=1):
+    _COUNTS[key] = _COUNTS.get(key, 0) + k
+
+
 def sig_of(sc, clause):
     return {'entry': 'Diffusion.fit' if sc['algo'] == 'diffusion' else 'Dirichlet.fit', 'bipartite': is_bipartite(sc),
             'clause': clause}
@@ -271,10 +278,11 @@ def case_of(sc, with_run=True):
         n = w.shape[0]
         nontriv = len(seeds) < n and len(set(seeds.values()) | ({sc['init']} if sc['init'] is not None else set())) > 1
         if maxp_applicable(sc, seeds, w):
+            ctx_count('spec:max-principle')
             spec = 'c14.spec_maxp %s %s %s %s %s %s %s %s' % (
                 sc['algo'], enc_sc_matrix(sc), enc_bool(is_bipartite(sc)), enc_seeds(seeds),
                 '_' if sc['init'] is None else enc_rat(Fraction(float(sc['init']))), enc_rat(Fraction(float(sc['alpha']))),
-                enc_rat(TOL), enc_ratlist(Fraction(float(x)) for x in block_out(res)))
+                enc_rat(TOL), impl[3:])
     key = ('fit', json.dumps(sc, sort_keys=True, default=str))
     return Case(key, sig_of(sc, 'max-principle/boundary'), run_line(sc) if with_run else None, impl, spec, nontriv,
                 {'kind': 'fit', 'scenario': sc})
@@ -288,6 +296,7 @@ def forms_case(sc, seeds_by_side):
         for side, (n, seeds) in seeds_by_side.items():
             s2[side] = make_form(kind, n, seeds)
         outs.append(enc_out(run_impl(s2)).replace(' ', '|'))
+    ctx_count('spec:input-forms')
     spec = 'c14.spec_forms %s %s %s' % tuple(outs)
     key = ('forms', json.dumps(sc, sort_keys=True, default=str), json.dumps(sorted((k, v[0], sorted(v[1].items())) for k, v in seeds_by_side.items())))
     return Case(key, sig_of(sc, 'input-forms'), None, outs[0], spec, True,
@@ -328,6 +337,8 @@ def harmonic_cases(sc, rng, with_nonexp=True):
         prev = cur
     g = '%s %s %s' % (enc_sc_matrix(sc), enc_bool(is_bipartite(sc)), enc_seeds(seeds))
     spec = 'c14.spec_harmonic %s %s %s' % (g, enc_rat(HARMONIC_TOL), enc_ratlist(Fraction(float(x)) for x in block_out(prev)))
+    ctx_count('spec:harmonic-limit')
+    ctx_count('harmonic-rounds:%d' % n_it)
     sc2 = dict(sc, n_iter=n_it)
     out.append(Case(('harmonic', json.dumps(sc2, sort_keys=True, default=str)), sig_of(sc, 'harmonic-limit'), None,
                     enc_out(prev), spec, True, {'kind': 'harmonic', 'scenario': sc2}))
@@ -337,6 +348,7 @@ def harmonic_cases(sc, rng, with_nonexp=True):
         if r1[0] == 'ok' and r2[0] == 'ok':
             spec = 'c14.spec_nonexp %s %s %s %s' % (g, enc_rat(TOL), enc_ratlist(Fraction(float(x)) for x in block_out(r1)),
                                                     enc_ratlist(Fraction(float(x)) for x in block_out(r2)))
+            ctx_count('spec:non-expansive')
             sc3 = dict(sc, n_iter=k)
             out.append(Case(('nonexp', json.dumps(sc3, sort_keys=True, default=str)), sig_of(sc, 'non-expansive'), None,
                             enc_out(r2), spec, True, {'kind': 'nonexp', 'scenario': sc3}))
@@ -578,6 +590,9 @@ def build_cases(ctx):
     # 7. harmonic limit on connected undirected graphs
     cases += harmonic_suite(ctx, rng, quick)
     ctx.exhaustive = False
+    for k, v in _COUNTS.items():
+        ctx.count(k, v)
+    _COUNTS.clear()
     return cases
 
 
